@@ -44,7 +44,7 @@ def _run(tier):
             lambda: xb.enc_run(c, "concat3", "UConcat", max_items=3),
             lambda: xb.enc_run(c, "concat2big", "UConcatBig", max_items=2),
             lambda: xb.small_run(c, range(256)),
-            lambda: xb.dec_run(c, "len5", 5, xb.CLASSES, True, big=True),
+            lambda: xb.dec_run(c, "len6", 6, xb.CLASSES, True, big=True),
         ]
     emits = parallel(thunks, max_workers=6)
     for e in emits:
@@ -52,8 +52,8 @@ def _run(tier):
     c.exhaustive = True
 
     # code -> spec
-    ntr = 100 if c.quick() else 1000
-    steps = 40 if c.quick() else 60
+    ntr = 100 if c.quick() else 5000
+    steps = 40 if c.quick() else 80
     trace = c.path("trace", "xbinary-c15.ndjson")
     c.run_vh(["drive", xb.COMP, "-seed", c.seed, "-n", ntr, "-out", trace, "-x", "mode=c15", "-x", "steps=%d" % steps])
     ok, at = xb.validate(c, trace, True, "C15")
